@@ -33,3 +33,13 @@ Definition base (s c : Q) : Q := c * s.
 Definition run_duccio (ms : list (Q * Q * Q)) (e n : Z) : Z * Z := qpair (duccio ms (inject_Z e) (inject_Z n)).
 Definition run_derive (task c t : Q) : Z * Z := qpair (derive task c t).
 Definition run_eff (s : Q) (e n : Z) : Z * Z := qpair (eff s (inject_Z e) (inject_Z n)).
+
+(* targets may be +inf (a metric that can never be penalised): (strength, cost, Some target | None) ;
+   relu(cost - inf) = relu(-inf) = 0 *)
+Definition term_opt (e n : Q) (m : Q * Q * option Q) : Q :=
+  let '(s, c, t) := m in match t with Some t' => eff s e n * qmax 0 (c - t') | None => 0 end.
+Definition duccio_opt (ms : list (Q * Q * option Q)) (e n : Q) : Q :=
+  fold_left (fun acc m => acc + term_opt e n m) ms 0.
+Definition finite_part (ms : list (Q * Q * option Q)) : list (Q * Q * Q) :=
+  flat_map (fun m => let '(s, c, t) := m in match t with Some t' => [(s, c, t')] | None => [] end) ms.
+Definition run_duccio_opt (ms : list (Q * Q * option Q)) (e n : Z) : Z * Z := qpair (duccio_opt ms (inject_Z e) (inject_Z n)).
